@@ -3,9 +3,10 @@ CONSTANTS
   Rec = {1, 2, 3}
   Thread = {1, 2}
   Orig = {1, 2}
+  MaxNest = 2
   Deviations = {}
 SPECIFICATION Spec
 VIEW View
-INVARIANTS TypeOK RcExact ReleasedAtMostOnce ReleasedWhenUnreferenced CountExact NeverTouchedAfterRelease HeldWhileReferenced
+INVARIANTS TypeOK RcExact ReleasedAtMostOnce ReleasedWhenUnreferenced CountExact NeverTouchedAfterRelease HeldWhileReferenced InFlightOnce
 PROPERTIES WakeOncePerWake
 CHECK_DEADLOCK FALSE
